@@ -103,39 +103,7 @@ META = {
     'models': ['M1'],
 }
 
-def sig_unsavable_values(witness):
-    """open finding unsavable-values: the case has an EXECUTED task whose action returns a value the DB codec cannot
-    encode (outcome 'saveerr-values'), doit reported it successful, and nothing else is wrong: every failed monitor is one
-    of those that follow from exactly that (the failure was not recognised; evaluated with it as a failure: dependents
-    started / serial run went on / record or next run), and the tasks named by the witness are that task"""
-    case = witness.get('case') or {}
-    bad = [i for i, t in enumerate(case.get('tasks', [])) if t.get('outcome') == 'saveerr-values']
-    if not bad:
-        return False
-    allowed = {'C05_failure_recognised', 'C05_truth_no_dependent_runs', 'C05_truth_serial_stops',
-               'C05_truth_not_recorded', 'C05_truth_reexecuted'}
-    fm = set(witness.get('failed_monitors') or [])
-    flush_died = witness.get('aborted_by') == 'flush'
-    if flush_died:
-        # dep_manager.close() raised on the unsavable value: NO change of this run reached the disk, so the removal of
-        # the records of the run's (other) failed tasks is lost as well
-        allowed = allowed | {'C05_not_recorded', 'C05_reexecuted'}
-    if not fm or not fm <= allowed or 'C05_failure_recognised' not in fm:
-        return False
-    det = witness.get('detail') or {}
-    wrong = (det.get('failure_recognised') or {}).get('tasks_whose_action_failed_but_were_reported_successful') or []
-    if not wrong or not set(wrong) <= set(bad):
-        return False
-    nd = det.get('truth_no_dependent_runs')
-    if nd and not set(nd.get('after_failure_of') or []) <= set(bad):
-        return False
-    for k in ('truth_not_recorded', 'truth_reexecuted'):
-        if det.get(k) and det[k].get('task') not in bad and not flush_died:
-            return False
-    return True
-
-
-SIGNATURES = {'unsavable-values': sig_unsavable_values}
+SIGNATURES = {}
 
 LEAN_KEYS = ['C05_no_dependent_runs', 'C05_serial_stops', 'C05_continue_complete', 'C05_not_recorded']
 # the same statements with "fails" read as what the task's action DID (known to the harness: it wrote the action), not
@@ -218,7 +186,7 @@ def prepare(case):
         if t['outcome'] == 'saveerr' and t['status'] == 'utd' and not case.get('always'):
             t['outcome'] = 'ok'
         # (M1 now models the delivery of a started-then-failed calc task: calcResFail, computed by runlib.expand for
-        # outcome 'saveerr' and for 'calc_first' tasks; only the open-finding shape stays without calc results)
+        # outcome 'saveerr' and for 'calc_first' tasks; only the values-cannot-be-stored shape stays without calc results)
         if t['outcome'] == 'saveerr-values' and t.get('calc_res') is not None:
             t['calc_res'] = None
         # a task whose failure comes AFTER its first action (failing command as last action, or action 2 of 3) has
@@ -704,7 +672,7 @@ def run_phases(case, watchdog=None, keep_raw=False):
         obs['aborted'] = 'invalid'
     if any(t.get('outcome') == 'saveerr-values' for t in case['tasks']) and exc is None and code == 3 \
             and 'not JSON serializable' in stderr_text:
-        obs['aborted'] = 'flush'      # the run died in dep_manager.close() (open finding unsavable-values)
+        obs['aborted'] = 'flush'      # the run died in dep_manager.close() (the defect repaired by 8fa62ea)
     obs['act3'] = [e[1] for e in raw if e[0] == 'act3']
     obs.update({'trace': runlib.canonical_trace(raw, runner), 'exit': code,
                 'err': runlib.classify_err(exc, stderr_text),
@@ -1026,13 +994,6 @@ def judge(case, obs, ans, st, shrink_left):
                 return False
             b, _p, _w = failing_keys(c, o)
             return first in b
-        if sig_unsavable_values(wit0):
-            # the open finding: reported as it is (no shrinking, not counted against the batch's violation budget)
-            st.violation(wit0, 'monitor:' + ','.join(wit0['failed_monitors']),
-                         '%s false on the implementation (%s)' % (wit0['failed_monitors'], wit0['detail']))
-            st.count('known_finding_seen:unsavable-values')
-            st.known_local = getattr(st, 'known_local', 0) + 1
-            return 0
         small = case
         if shrink_left > 0 and not py.get(first, True):
             t0 = time.time()
@@ -1087,7 +1048,7 @@ def count_case(st, case, obs):
         if t.get('outcome') == 'saveerr-values':
             st.count('unsavable_values:%s' % t.get('badval'))
     if obs.get('aborted') == 'flush':
-        st.count('aborted_run:db_flush_failed(open finding unsavable-values)')
+        st.count('aborted_run:db_flush_failed')
     if case.get('abort'):
         st.count('abort_plant:%s' % case['abort']['kind'])
         st.count('abort_plant_fired:%s' % obs.get('aborted'))
